@@ -894,7 +894,10 @@ orc_x86_insn_output_opcode (OrcCompiler *p, OrcX86Insn *xinsn)
       break;
     case ORC_X86_INSN_TYPE_LABEL:
     case ORC_X86_INSN_TYPE_BRANCH:
+      break;
     case ORC_X86_INSN_TYPE_STACK:
+      /* the register is encoded in the opcode byte: r8..r15 need REX.B */
+      orc_x86_emit_rex (p, 0, 0, 0, xinsn->dest);
       break;
     case ORC_X86_INSN_TYPE_IMM8_SSEM_AVX:
     case ORC_X86_INSN_TYPE_IMM8_AVX_SSEM:
